@@ -514,7 +514,7 @@ def check_bound_rules(ctx):
                 continue                                  # `?`: the failure of a callee, not a verdict of this function
             own.add(bi)
         ctx.counters['cfg_paths'] += 1
-        free = sorted(e for e in own if not T.must_pass(b, 0, {e}, test_bbs))
+        free = sorted(e for e in own if not must_pass_sem(ctx, b, 0, {e}, test_bbs))      # on feasible paths: `match find_map(..) { Some(..) => Err(..), None => Ok(()) }`
         ctx.check(not free, R + '/check_bound/only-stated-error', 'T-ERRFLOW', b.name,
                   'an error of its own is reachable without a Bound::contains(value, atol) test on a value of the submitted state (bb%s)' % free, b.site(free[0]) if free else b.site())
     # Bound::contains: `lower - atol <= v && v <= upper + atol`.  A small pure function: decided as a truth table on a grid of
